@@ -13,6 +13,9 @@ import (
 var constExpr = map[string]ast.Expr{}
 var constPkg = map[string]string{}
 
+// package-level variables (as opposed to constants): "pkg.Name"
+var varNames = map[string]bool{}
+
 func collectConsts(dir string) {
 	pkgs, err := parser.ParseDir(fset, dir, func(fi os.FileInfo) bool { return !strings.HasSuffix(fi.Name(), "_test.go") }, 0)
 	if err != nil {
@@ -27,6 +30,11 @@ func collectConsts(dir string) {
 				}
 				for _, sp := range gd.Specs {
 					vs := sp.(*ast.ValueSpec)
+					if gd.Tok == token.VAR {
+						for _, n := range vs.Names {
+							varNames[p.Name+"."+n.Name] = true
+						}
+					}
 					for i, n := range vs.Names {
 						if i < len(vs.Values) {
 							constExpr[p.Name+"."+n.Name] = vs.Values[i]
